@@ -10,7 +10,7 @@
    [single_wf] = contract of tempfile.mkdtemp (fresh name, nothing at or below it) + the destination
    is not a directory.  [dest_of fs0 req] = realpath(req) if req is a symbolic link, else req. *)
 From Coq Require Import List Bool Arith Lia NArith.
-From IRV Require Import Base.Exn C08.Model C08.Proofs1 C08.Proofs2 C08.Proofs3 C08.Proofs4 C08.Proofs5.
+From IRV Require Import Base.Exn C08.Model C08.Proofs1 C08.Proofs2 C08.Proofs3 C08.Proofs4 C08.Proofs5 C08.Proofs6.
 Import ListNotations.
 
 (* FULL STATEMENT (crash atomicity): for every prefix length k the destination holds its previous node
@@ -20,8 +20,11 @@ Import ListNotations.
    and os.replace (all tensor writes incl. every chunk, close, release, copymode) had returned normally"
    ([replaced_by_complete]) in place of the closed form [image ..]; never a mixture, never a truncation of
    the destination: its node is either untouched or moved wholesale from the temporary path.
-   MISSING for full strength: the functional lemma  replaced_by_complete .. d m -> d = image ..  (the
-   correspondence check compares exactly these bytes with the implementation on every case). *)
+   MISSING for full strength: the functional lemma  replaced_by_complete .. d m -> d = image ..  is proved
+   (C08_new_is_image_partial, C08_crash_atomic_image_partial below) for saves whose inputs are in-memory,
+   lazy and third-party multi-chunk tensors; for ExternalTensor inputs (the chunked copy loop ARead/AWriteBuf)
+   it is not proved - there the correspondence check compares exactly these bytes with the implementation
+   on every case. *)
 Theorem C08_crash_atomic_partial :
   forall fs0 tens small sc k, single_wf fs0 sc ->
   let dest := dest_of fs0 (sc_req sc) in
@@ -36,6 +39,27 @@ Proof.
   apply (interrupt_atomic fs0 tens small sc Hwf).
 Qed.
 Print Assumptions C08_crash_atomic_partial.
+
+(* the complete temporary file holds exactly [image] (no ExternalTensor among the written tensors) *)
+Theorem C08_new_is_image_partial :
+  forall fs0 tens sc c d m,
+  forallb no_ext (sc_tensors sc) = true ->
+  replaced_by_complete c fs0 tens sc d m -> d = image fs0 tens (sc_tensors sc).
+Proof. intros fs0 tens sc c d m Hne (s1 & HA & HP). exact (prerepl_image fs0 tens sc c s1 d m HA Hne HP). Qed.
+Print Assumptions C08_new_is_image_partial.
+
+(* full-strength crash atomicity on that sub-domain: old node, or exactly the complete new bytes and only
+   if os.replace is among the first k effects *)
+Theorem C08_crash_atomic_image_partial :
+  forall fs0 tens small sc k, single_wf fs0 sc -> forallb no_ext (sc_tensors sc) = true ->
+  let dest := dest_of fs0 (sc_req sc) in
+  let s := fst (run_prefix k fs0 tens small sc) in
+  length (s_trace s) <= k /\
+  (lookup (s_fs s) dest = lookup fs0 dest
+   \/ exists m, lookup (s_fs s) dest = Some (File (image fs0 tens (sc_tensors sc)) m)
+        /\ In (OReplace (tmpf_of sc dest) dest) (s_trace s)).
+Proof. exact crash_atomic_image. Qed.
+Print Assumptions C08_crash_atomic_image_partial.
 
 (* the same under any combination of a kill point and a single injected fault *)
 Theorem C08_interrupt_atomic_partial :
@@ -139,6 +163,8 @@ Example ex_fault_clean :
   snd (run_with_fault 7 ex_fs ex_tens [] ex_sc) = SRaise OSError
   /\ s_fs (fst (run_with_fault 7 ex_fs ex_tens [] ex_sc)) = ex_fs.
 Proof. vm_compute. repeat split; reflexivity. Qed.
+Example ex_image : image ex_fs ex_tens (sc_tensors ex_sc) = [2%N; 3%N; 5%N; 6%N; 7%N].
+Proof. vm_compute. reflexivity. Qed.
 Example ex_shard_wf : Forall (shard_wf ex_fs) [ {| sc_req := [3%N]; sc_tmpd := [7%N]; sc_tensors := [(0, TMem [5%N])];
      sc_chunk := 1; sc_cb := None; sc_cbbase := 0 |} ].
 Proof. constructor; [|constructor]. unfold shard_wf. simpl. repeat split; discriminate. Qed.
